@@ -120,6 +120,14 @@ def runActs (keep : Bool) (cap : Nat) (s : LSt) : List Act → LSt
     | some s' => runActs keep cap s' as
     | none => runActs keep cap s as
 
+/-- number of actions of a schedule that were enabled when their turn came (the steps actually made) -/
+def executed (keep : Bool) (cap : Nat) : LSt → List Act → Nat
+  | _, [] => 0
+  | s, a :: as =>
+    match step keep cap s a with
+    | some s' => executed keep cap s' as + 1
+    | none => executed keep cap s as
+
 /-- no action is enabled -/
 def stuck (keep : Bool) (cap : Nat) (s : LSt) : Bool :=
   (List.range s.ws.length).all (fun i =>
